@@ -1,6 +1,7 @@
 \* C13 thorough: as quick, with <= 3 extra properties (all ordered triples over 10 core properties),
 \* composites over all 23 atoms and depth-2 composites (composite of composite over 4 atoms);
 \* the harness instantiates every abstract event 3 times from the value pool (64 KiB strings).
+\* Dimensions as listed in Encode_quick.cfg (key kinds, non-numeric metric values, length classes, carriers, forms).
 SPECIFICATION Spec
 CONSTANTS
     Events <- MC_Events
